@@ -200,10 +200,13 @@ def classification_probe(chk):
     from . import session, ring
     g = ring.Geo(4)
     cases, meta = [], []
-    pair = ["raw %x %s" % (2 * g.slot, ring.hdr_bytes(("F", 200, "IP", "IP", "UN"), g.cap).hex()),
-            "raw %x %s" % (3 * g.slot, ring.hdr_bytes(("P", 201, "IP", "IP", "UN"), g.cap).hex())]
-    for kind in (0, 1):
-        for seq in (0, 7, 199):
+    def pair_at(sq):
+        return ["raw %x %s" % (2 * g.slot, ring.hdr_bytes(("F", sq, "IP", "IP", "UN"), g.cap).hex()),
+                "raw %x %s" % (3 * g.slot, ring.hdr_bytes(("P", sq + 1, "IP", "IP", "UN"), g.cap).hex())]
+    # the resumable pair carries the newest numbers: 200 / 201, and the last two legal ones before the wrap
+    for pair, seqs in ((pair_at(200), (0, 7, 199)), (pair_at(0xFFFFFFFD), (7,))):
+      for kind in (0, 1):
+        for seq in seqs:
             for e in EXT:
                 for i in INT:
                     for b in BOOT:
@@ -232,7 +235,34 @@ def classification_probe(chk):
         elif got_rec != want_rec: msgs.append("recovery remediation of a %s header (ext %#x int %#x boot %#x): %s, the lifecycle table prescribes %s" % (cls, w[4], w[5], w[6], got_rec, want_rec))
         for m in msgs[:1]:
             chk.failures.append(core.Failure(m, "session", "matrix", c, raw[:1500], key="c11-class"))
-    chk.note_cases("classification-probe", cases, cases, sample_n=1, dist={"triples": 18, "kinds": 2, "sequence_numbers": 3, "probe_slots": 2})
+    # a single populated slot: the answers and the remediation depend on the status triple alone, not on the sequence number
+    solo, smeta = [], []
+    for kind in (0, 1):
+        for e in EXT:
+            for i in INT:
+                for b in BOOT:
+                    for seq in (7, 0, 0x7FFFFFFF, 0xFFFFFFFD, 0xFFFFFFFE):
+                        w = [kind, seq, ring.SZ, ring.CNT if kind == 0 else g.cap, e, i, b]
+                        solo.append("4 %d %d|%s" % (g.slot, g.blk, ";".join(["raw %x %s" % (g.slot, enc(w).hex()), "bl", "fb", "recover", "drop", "hdrs"])))
+                        smeta.append(w)
+    simpl = core.run_stream(fvh, "session", solo)
+    ref = {}
+    for c, raw, w in zip(solo, simpl, smeta):
+        out = session.parse_out(raw)
+        if len(out) != 6:
+            chk.failures.append(core.Failure("harness produced no / truncated result", "session", "matrix", c, raw, key="crash")); break
+        cls = ref_total(w)
+        obs = (out[1][0], out[2][0], out[3][0].split(":")[0], tuple(k for k, a, ln, d, z in session.expand_log(out[3][1], g.blk)))
+        want_bl = {"BootloadWriteInProgress": "inc:1", "FirstBootPendingAck": "fail:1"}.get(cls, "idle") if w[0] == 0 else "idle"
+        want_fb = "some:1" if cls == "ConfirmedImage" else "none"
+        if obs[0] != want_bl or obs[1] != want_fb:
+            chk.failures.append(core.Failure("a lone %s header (kind %d, sequence number %#x): bl_boot_status = %s, fallback_firmware = %s; the class prescribes %s / %s" % (cls, w[0], w[1], obs[0], obs[1], want_bl, want_fb), "session", "matrix", c, raw[:1500], key="c11-class"))
+        elif w[1] == 7:
+            ref[tuple(w[:1] + w[4:])] = obs
+        elif obs != ref[tuple(w[:1] + w[4:])]:
+            chk.failures.append(core.Failure("a lone %s header (kind %d): with sequence number %#x the answers / remediation are %s, with sequence number 7 they are %s - the class depends on the status triple alone" % (cls, w[0], w[1], obs, ref[tuple(w[:1] + w[4:])]), "session", "matrix", c, raw[:1500], key="c11-class"))
+    cases = cases + solo; impl = impl + simpl
+    chk.note_cases("classification-probe", cases, cases, sample_n=1, dist={"triples": 18, "kinds": 2, "sequence_numbers": "0, 7, 199 beside a pair numbered 200/201; 7 beside a pair numbered 2^32-3 / 2^32-2; 0, 7, 2^31-1, 2^32-3, 2^32-2 alone", "probe_slots": 2})
     try:
         fvm = core.build_fvm()
         model = core.run_stream(fvm, "session", cases)
@@ -272,7 +302,7 @@ def run(chk):
     classification_probe(chk)
     return chk.finish(
         level="proof",
-        rule="classification-probe: every legal (kind, ext, int, boot) header x 3 sequence numbers x 2 slots beside a resumable pair: bl / fallback / recovery remediation vs the lifecycle table and the model; layout stream: P = byte strings (all field-domain pairs, classification table, random, torn status words between every ordered code pair), "
+        rule="classification-probe: every legal (kind, ext, int, boot) header x 3 sequence numbers x 2 slots beside a resumable pair (numbered 200 / 201, and 2^32-3 / 2^32-2), and alone with sequence numbers up to 2^32-2 (answers and remediation independent of the number): bl / fallback / recovery remediation vs the lifecycle table and the model; layout stream: P = byte strings (all field-domain pairs, classification table, random, torn status words between every ordered code pair), "
              "E = typed headers encoded then re-parsed, M = status marks on programmed headers; a case is non-trivial when it parses / encodes / marks (not a plain reject); distinct by case text",
         trusted=core.TRUSTED_COMMON + ["C11: the reference codec in fvlib/c11.py (oracle) is written from the property text"],
     )
